@@ -497,6 +497,7 @@ func runC19(c *eng.Ctx) {
 
 	// ---- 7b. the task's error is a latch: once a failure is recorded, no later event lowers it to "no error" ---------------------------
 	c.Rule("ERRFLOW", "query/context.baseTaskContext.err{latched}", func() { taskErrorLatched(c) })
+	c.Rule("PASS", mcT+".handleResponse{expectResults--}", func() { expectResultsCounting(c) })
 
 	// ---- 7c. a leaf request whose pipeline was started is answered by the pipeline's callback only -------------------------------------
 	c.Rule("PROV", "query.leafTaskProcessor.processDataSearch{after Execute the answer belongs to the callback}", func() {
